@@ -385,7 +385,8 @@ def eval_first_wins(installed):
                         out.append(('first-installed', 'installed {}, cmd={!r}: {} {}; solvers run: {}; expected {} (first of supported_satsolvers())'.format(
                             installed, cmd, method, _show(kind, val), [r['name'] for r in log], cand[0])))
                 if env.leftovers():
-                    out.append(('tempfiles:' + (xs.REAL_CONVENTION[cand[0]] if cand else 'none'), 'installed {}: temporary files left: {}'.format(installed, env.leftovers())))
+                    ran = log[0]['conv'] if log else (xs.REAL_CONVENTION[cand[0]] if cand else 'none')
+                    out.append(('tempfiles:' + ran, 'installed {}: temporary files left: {}'.format(installed, env.leftovers())))
                     env.sweep()
         some = cnfgen.some_solver_installed()
         if some is not bool(installed):
